@@ -38,6 +38,7 @@ def states(tier, seed):
         dict(sym=False, comp=False, ground=False, visc=True, wave=True),
         dict(sym=True, comp=True, ground=False, visc=True, wave=True),
         dict(sym=True, comp=False, ground=True, visc=False, wave=False),
+        dict(sym=True, comp=False, ground=False, visc=False, wave=True),  # wave drag without viscous drag
     ]
     if tier == "thorough":
         aero_opts += [dict(sym=False, comp=True, ground=False, visc=False, wave=False), dict(sym=True, comp=False, ground=True, visc=True, wave=True), dict(sym=False, comp=False, ground=False, visc=False, wave=False, rot=True)]
